@@ -70,7 +70,11 @@ Record sv := mkSv { heap : option (list cell); loc : list cell; size : nat }.
 Record state := mkSt { sa : sv; sb : sv }.
 
 (* inline capacity and element type *)
-Record params := mkParams { pS : nat; ptriv : bool; pdflt : V; pmv : V -> V }.
+(* peq / plt: the element type's operator== and operator< (on the integer codes
+   of the values).  They are arbitrary: for double they are the IEEE comparisons
+   (+0.0 == -0.0, NaN != NaN), not structural equality of the codes. *)
+Record params := mkParams { pS : nat; ptriv : bool; pdflt : V; pmv : V -> V;
+                            peq : V -> V -> bool; plt : V -> V -> bool }.
 
 Section Model.
   Variable P : params.
@@ -478,29 +482,32 @@ Section Model.
   (* ------------------------------------------------ observers *)
   Definition contents (s : sv) : res (list V) := read_range 0 (size s) (data s).
 
-  Fixpoint list_eqb (xs ys : list V) : bool :=
+  (* std::equal on ranges of equal length: the element operator== pointwise *)
+  Fixpoint list_eqb (eq : V -> V -> bool) (xs ys : list V) : bool :=
     match xs, ys with
     | [], [] => true
-    | x :: xs', y :: ys' => Z.eqb x y && list_eqb xs' ys'
+    | x :: xs', y :: ys' => eq x y && list_eqb eq xs' ys'
     | _, _ => false
     end.
 
-  (* std::lexicographical_compare *)
-  Fixpoint lex_ltb (xs ys : list V) : bool :=
+  (* std::lexicographical_compare with the element operator< *)
+  Fixpoint lex_ltb (lt : V -> V -> bool) (xs ys : list V) : bool :=
     match xs, ys with
     | _, [] => false
     | [], _ :: _ => true
-    | x :: xs', y :: ys' => if Z.ltb x y then true else if Z.ltb y x then false else lex_ltb xs' ys'
+    | x :: xs', y :: ys' => if lt x y then true else if lt y x then false else lex_ltb lt xs' ys'
     end.
 
   (* operator== : size comparison, then std::equal *)
   Definition sv_eq (a b : sv) : res bool :=
     if size a =? size b then
-      xs <- contents a ;; ys <- contents b ;; Ok (list_eqb xs ys)
+      xs <- contents a ;; ys <- contents b ;; Ok (list_eqb (peq P) xs ys)
     else Ok false.
 
+  (* operator< ; the other four are defined from these two in the source:
+     a != b is !(a == b), a > b is b < a, a >= b is !(a < b), a <= b is !(a > b) *)
   Definition sv_lt (a b : sv) : res bool :=
-    xs <- contents a ;; ys <- contents b ;; Ok (lex_ltb xs ys).
+    xs <- contents a ;; ys <- contents b ;; Ok (lex_ltb (plt P) xs ys).
 
   (* live objects of non-trivial type owned by a vector *)
   Definition live_count (s : sv) : nat :=
